@@ -7,23 +7,39 @@
    per concatenation; a full restore resets the counts to the checkpoint, a transparent restore
    (and the value-preserving restore) leaves them unchanged.
 
-   Proved here (for every allocator state satisfying the invariant AOK, which AllocInv.ainv_run shows
-   to hold after every history, see Props/C13.v): the accounting rule PER OPERATION, for every public
-   operation and every representation of its arguments (inline small atom, heap atom, substring,
-   pair), including the optimised-away allocations (inline atoms, empty / single-argument concat)
-   and all outcomes of maybe_restore_with_node. The rule is exactly the transition function of the
-   reference, so the counts of arena and reference agree step by step.
-   NOT proved as a single theorem: the fold of these per-step equalities over an op list against
-   AllocHist.r_run (needs the lock-step simulation of node contents); that composition is checked
-   by the differential runs of lib/props/c12.py (arena model = extracted reference = Python
-   reference = implementation on every generated history). Level claimed: other.
+   Proved here:
+   (a) the WHOLE-HISTORY theorem C12_history: start arena (Alloc.v, a_init limit) and reference
+       (AllocRef.v, r_init limit) and run the same list of operations h (AllocHist.a_run / r_run;
+       arguments name earlier results by index). For every limit >= 1 and EVERY h whose arguments have
+       the API's types (wf_op2: bytes are bytes, u64 / i64 in range), if on the arena side
+         - no operation panicked                       (a_dead st = false),
+         - new_substr never took finding F2's branch: neither the copy (a_f2 st = false) nor, in the
+           repaired variant fx = true, that branch's OutOfMemory          (substr_clean),
+       then the arena's (atom_count, pair_count, heap_size) equal the reference's three counts, the
+       reference did not panic either, the heap limits agree, and every live arena node denotes the
+       reference's tree at the same index. Proof: the lock-step simulation Proofs/AllocSim.v (node
+       lists in the relation "denotes", checkpoint lists corresponding, counts equal), one case per
+       operation and outcome, on top of the invariants AllocInv.AINV and AllocStraddle.NSI.
+       C12_history_unrepaired: for the code without the heap-limit check in that branch (fx = false)
+       the second premise is just a_f2 st = false.  C12_step: the single simulation step.
+       C12_no_straddle / C12_maybe_restore_total: no atom ever straddles the heap mark of a live
+       checkpoint (invariant of every step), hence maybe_restore_with_node never reports "invalid atom
+       byte range" - the premise no_straddle of C12_maybe_restore_keeps holds in every history.
+   (b) the accounting rule PER OPERATION (for every allocator state satisfying the invariant AOK, which
+       AllocInv.ainv_run shows to hold after every history, see Props/C13.v), for every public
+       operation and every representation of its arguments (inline small atom, heap atom, substring,
+       pair), including the optimised-away allocations (inline atoms, empty / single-argument concat)
+       and all outcomes of maybe_restore_with_node. The rule is exactly the transition function of the
+       reference.
+   Level claimed: other (F2 refutes the statement as written).
 
    Refuted as stated (finding F2): new_substr on an inline small atom whose slice is not a canonical
    small integer copies the slice to the heap, so heap_size grows by the slice length although
    substrings share their parent's bytes: C12_refuted. All theorems below exclude exactly that
    branch ([SubSmallHeap]) — with or without the heap-limit fix the bytes are still counted. *)
+From Coq Require Import Lia.
 From Clvm Require Import Model.AllocHist Proofs.AllocBasics Proofs.AllocHeap Proofs.AllocOps
-  Proofs.AllocRestore Proofs.AllocReads.
+  Proofs.AllocRestore Proofs.AllocReads Proofs.AllocInv Proofs.AllocSim Proofs.AllocStraddle.
 Open Scope N_scope.
 
 Theorem C12_init_counts : forall limit a, new_limited limit = Ok a -> counts a = (2, 0, 1).
@@ -122,6 +138,39 @@ Theorem C12_maybe_restore_keeps : forall a c x,
     end.
 Proof. exact maybe_restore_ok. Qed.
 
+(* ------------------------------------------------------------------ whole histories *)
+Theorem C12_history : forall fx limit h st, 1 <= limit -> Forall wf_op2 h ->
+  a_final fx limit h = Some st -> a_dead st = false -> a_f2 st = false ->
+  (forall st0, a_init limit = Ok st0 -> substr_clean fx st0 h) ->
+  a_counts st = rs_counts (r_final limit h) /\ r_dead (r_final limit h) = false /\
+  heap_limit (a_al st) = r_limit (r_st (r_final limit h)) /\
+  Forall2 (fun n t => denote (hp (a_al st)) n = Some t) (a_nodes st) (r_nodes (r_final limit h)).
+Proof. exact history_counts_ns. Qed.
+
+Theorem C12_history_unrepaired : forall limit h st, 1 <= limit -> Forall wf_op2 h ->
+  a_final false limit h = Some st -> a_dead st = false -> a_f2 st = false ->
+  a_counts st = rs_counts (r_final limit h).
+Proof. exact history_counts_unrepaired. Qed.
+
+(* no atom straddles the heap mark of a live checkpoint: preserved by every step from every state
+   satisfying the invariant; so maybe_restore_with_node never reports "invalid atom byte range" *)
+Theorem C12_no_straddle : forall fx st o, AINV st -> NSI st -> NSI (fst (a_step fx st o)).
+Proof. exact ns_step. Qed.
+
+Theorem C12_maybe_restore_total : forall fx st k i, AINV st -> NSI st ->
+  snd (a_step fx st (OMaybeRestore k i)) <> ObErr (InternalError 5).
+Proof. exact mr_no_ie5. Qed.
+
+(* one step of the simulation, from any related pair of states *)
+Theorem C12_step : forall fx st rs o, SIM st rs -> wf_op2 o ->
+  a_dead (fst (a_step fx st o)) = false -> a_f2 (fst (a_step fx st o)) = false ->
+  step_ok fx o (snd (a_step fx st o)) ->
+  SIM (fst (a_step fx st o)) (fst (r_step rs o)).
+Proof. exact sim_step. Qed.
+
+Theorem C12_init : forall limit st, 1 <= limit -> a_init limit = Ok st -> SIM st (r_init limit).
+Proof. exact sim_init. Qed.
+
 (* finding F2: the statement as written is refuted by the faithful model of the unchanged code *)
 Theorem C12_refuted :
   exists h, option_map a_f2 (a_final false 1000 h) = Some true /\
@@ -140,6 +189,35 @@ Example C12_witness :
   option_map a_f2 (a_final false 100 h) = Some false.
 Proof. vm_compute. repeat split. Qed.
 
+(* the premises of C12_history hold on a history with every kind of operation, including three
+   maybe_restore_with_node calls (outcomes Aborted, Replace and NoReplace), under
+   both variants of new_substr *)
+Definition hist_witness : list op :=
+  [ONewAtom [1; 2; 3; 4; 5]; ONewSmall 7; OCheckpoint; ONewPair 0 1; ONewSubstr 0 1 3;
+   ONewConcat 7 [0; 3]; OTCheckpoint; ONewNumber (-129); OMaybeRestore 0 5; OTCheckpoint;
+   ONewAtom (repeat 9 600%nat); ONewAtom (repeat 8 600%nat); ONewAtom [200; 1; 2]; OMaybeRestore 0 8;
+   ONewAtom (repeat 7 1100%nat); OMaybeRestore 0 2;
+   ORestoreT 1; OAddGhostPair 3; ORemoveGhostPair 2; OAddGhostAtom 1; OAtomEq 0 1; ONewI64 (-1);
+   ORestore 1; ONewU64 300].
+
+Example C12_history_witness : forall fx,
+  Forall wf_op2 hist_witness /\
+  option_map a_dead (a_final fx 5000 hist_witness) = Some false /\
+  option_map a_f2 (a_final fx 5000 hist_witness) = Some false /\
+  (forall st0, a_init 5000 = Ok st0 -> substr_clean fx st0 hist_witness) /\
+  option_map a_counts (a_final fx 5000 hist_witness) = Some (rs_counts (r_final 5000 hist_witness)).
+Proof.
+  intros fx. split.
+  { repeat (apply Forall_cons; [cbn [wf_op2]; try exact I; try reflexivity; try lia|]). apply Forall_nil. }
+  destruct fx.
+  - split; [vm_compute; reflexivity|]. split; [vm_compute; reflexivity|]. split; [|vm_compute; reflexivity].
+    intros st0 H. vm_compute in H. apply Ok_inj in H. subst st0. vm_compute.
+    repeat split; try (right; discriminate); discriminate.
+  - split; [vm_compute; reflexivity|]. split; [vm_compute; reflexivity|]. split; [|vm_compute; reflexivity].
+    intros st0 H. vm_compute in H. apply Ok_inj in H. subst st0. vm_compute.
+    repeat split; try (left; reflexivity); discriminate.
+Qed.
+
 Print Assumptions C12_init_counts.
 Print Assumptions C12_new_atom.
 Print Assumptions C12_new_number.
@@ -152,3 +230,10 @@ Print Assumptions C12_transparent_restore_keeps.
 Print Assumptions C12_maybe_restore_keeps.
 Print Assumptions C12_refuted.
 Print Assumptions C12_witness.
+Print Assumptions C12_history.
+Print Assumptions C12_history_unrepaired.
+Print Assumptions C12_no_straddle.
+Print Assumptions C12_maybe_restore_total.
+Print Assumptions C12_step.
+Print Assumptions C12_init.
+Print Assumptions C12_history_witness.
